@@ -17,6 +17,8 @@ func main() {
 	switch os.Args[1] {
 	case "verify":
 		cmdVerify(os.Args[2:])
+	case "check":
+		cmdCheck(os.Args[2:])
 	case "list":
 		cmdList(os.Args[2:])
 	default:
